@@ -402,6 +402,14 @@ Section WithGraph.
     | None => v' <- apply_info vi (new_value name) ;; Ok (OFresh v', cur)
     end.
 
+  (* a repeated initializer name: only the last tensor of that name is used *)
+  Fixpoint last_only (l : list TensorP) : list TensorP :=
+    match l with
+    | [] => []
+    | t :: r => if nonempty (dflt [] (t_name t)) && in_str (dflt [] (t_name t)) (map (fun x => dflt [] (t_name x)) r)
+                then last_only r else t :: last_only r
+    end.
+
   (* serde._deserialize_graph.  Not modelled (Raise OtherError): duplicated graph-input names, where
      the inputs list holds Value objects that the name table does not. *)
   Definition deser_graph_body (outer : list scope) (g : GraphP) : res IGraph :=
@@ -412,7 +420,8 @@ Section WithGraph.
                            Ok (v_name v, maybe_quant qs (v_name v) v)) (g_inputs g) ;;
     let cur0 : scope := dict_of ins in
     let vis := vinfo_dict (g_vinfo g) in
-    st <- foldM (deser_init vis qs) (g_inits g) (cur0, []) ;;
+    _ <- mapM deser_tensor (g_inits g) ;;            (* every initializer tensor is deserialized first *)
+    st <- foldM (deser_init vis qs) (last_only (g_inits g)) (cur0, []) ;;
     cur2 <- foldM (declare_outputs vis qs) (g_nodes g) (fst st) ;;
     nodes <- mapS (deser_node outer vis qs) (g_nodes g) cur2 ;;
     outs <- mapS deser_goutput (g_outputs g) (snd nodes) ;;
@@ -472,7 +481,7 @@ Fixpoint deser_graph (fuel : nat) (outer : list scope) (g : GraphP) : res IGraph
 Fixpoint ser_graph (fuel : nat) (irv : option Z) (g : IGraph) : res GraphP :=
   match fuel with
   | O => Raise OtherError
-  | S f => ser_graph_body (ser_graph f None) irv g
+  | S f => ser_graph_body (ser_graph f irv) irv g    (* nested graphs follow the same IR-version rule *)
   end.
 
 (* ================================================================== functions *)
@@ -508,7 +517,7 @@ Definition ser_function (fuel : nat) (irv : Z) (f : IFunction) : res (FunctionP 
                 (if_attrs f) ;;
   outs <- mapM (fun o => match o with OKey k => v <- getv vals k ;; Ok (v_name v) | OFresh v => Ok (v_name v) end)
                (ig_outputs g) ;;
-  nodes <- mapM (fun n => np <- ser_node (ser_graph fuel None) (Some irv) n ;;
+  nodes <- mapM (fun n => np <- ser_node (ser_graph fuel (Some irv)) (Some irv) n ;;
                   vs <- mapM (fun k => match k with [] => Ok [] | _ => v <- getv vals k ;; Ok [v] end) (in_outputs n) ;;
                   Ok (np, filter should_create (concat vs))) (ig_nodes g) ;;
   let info_values := filter should_create ins ++ concat (map snd nodes) in
